@@ -6,6 +6,7 @@ import (
 	"github.com/taskctl/taskctl/pkg/task"
 	"math/rand"
 	"strings"
+	"sync"
 	"time"
 )
 
@@ -416,6 +417,15 @@ func runSched(col *Collector, focus, tier string, seed int64) {
 			sharedNestedCase(col, focus, k%2 == 0)
 		}
 	}
+	if focus == "C03" {
+		reps := 400
+		if tier == "thorough" {
+			reps = 4000
+		}
+		for _, k := range []int{2, 4, 8} {
+			includedInParallelCase(col, k, 3, reps)
+		}
+	}
 	parallel(len(plans), 16, func(i int) {
 		t := tags[i]
 		if plans[i].tight {
@@ -591,6 +601,73 @@ wait:
 				cs.Fail, cs.Sig = fmt.Sprintf("run counts %s, expected %s", cs.Impl, want), "c03-run-count"
 			}
 		}
+	}
+	col.Add(cs)
+}
+
+// a runner that only counts: every Run returns at once
+type countRunner struct {
+	mu sync.Mutex
+	n  map[string]int
+}
+
+func (r *countRunner) Run(t *task.Task) error {
+	r.mu.Lock()
+	r.n[t.Name]++
+	r.mu.Unlock()
+	return nil
+}
+func (r *countRunner) Cancel() {}
+func (r *countRunner) Finish() {}
+
+// one pipeline included by several stages that are eligible at the same time: the inner pipeline is scheduled by
+// several loops at once, and each of its stages must still be executed exactly once
+func includedInParallelCase(col *Collector, includers, inner, reps int) {
+	cs := Case{Replay: fmt.Sprintf("pipeline P (%d independent stages) included by %d stages with no dependency between them, %d repetitions", inner, includers, reps),
+		Tags: []string{"nested", "nested-included-in-parallel"}, NonTrivial: true}
+	bad := ""
+	for rep := 0; rep < reps && bad == "" && cs.Fail == ""; rep++ {
+		var ps []*scheduler.Stage
+		for i := 0; i < inner; i++ {
+			t := task.NewTask()
+			t.Name = fmt.Sprintf("x%d", i)
+			ps = append(ps, &scheduler.Stage{Name: t.Name, Task: t})
+		}
+		p, err := scheduler.NewExecutionGraph(ps...)
+		if err != nil {
+			cs.Fail, cs.Sig = err.Error(), "sched-setup"
+			break
+		}
+		var os []*scheduler.Stage
+		for i := 0; i < includers; i++ {
+			os = append(os, &scheduler.Stage{Name: fmt.Sprintf("I%d", i), Pipeline: p})
+		}
+		g, err := scheduler.NewExecutionGraph(os...)
+		if err != nil {
+			cs.Fail, cs.Sig = err.Error(), "sched-setup"
+			break
+		}
+		r := &countRunner{n: map[string]int{}}
+		sd := scheduler.NewScheduler(r)
+		sd.VerifSetPause(0)
+		done := make(chan error, 1)
+		go func() { done <- sd.Schedule(g) }()
+		select {
+		case <-done:
+		case <-time.After(10 * time.Second):
+			cs.Fail, cs.Sig = "Schedule did not return within 10s", "c03-no-return"
+		}
+		r.mu.Lock()
+		for i := 0; i < inner; i++ {
+			if c := r.n[fmt.Sprintf("x%d", i)]; c != 1 && bad == "" {
+				bad = fmt.Sprintf("repetition %d: inner stage x%d was executed %d times", rep, i, c)
+			}
+		}
+		r.mu.Unlock()
+	}
+	cs.Impl = "once=" + fmt.Sprint(bad == "")
+	if bad != "" && cs.Fail == "" {
+		cs.Fail, cs.Sig = bad, "c03-twice"
 	}
 	col.Add(cs)
 }
